@@ -14,9 +14,20 @@ EXPLANATION = ("V1 positional decode (path-sensitive abstract evaluation with a 
                "if no value failed the only effect is that the text collection is inserted into `attrs` under the attribute type; if "
                "any value failed (flag / non-empty binary vector / v itself) the text collection is appended, as bytes, to "
                "bin_attrs[type], so is a local vector of binary values, and nothing is inserted into `attrs`.  The loop over the "
-               "values is only left by exhaustion.  The two maps returned are distinct fresh maps. Not decided: 'no value lost or "
+               "values is only left by exhaustion.  The two maps returned are distinct fresh maps.  Second form of V2 (nothing carried from "
+               "value to value; the collected values S are consulted as a whole): phase 1, the decision - a path that completes an attribute "
+               "must know whether some value of S fails the UTF-8 test from a primitive that applies that test to every element of S: any / "
+               "position / find with 'fails' as the predicate, all with 'is valid', or the tests' Results collected into one Result, over S "
+               "itself (not a part of it); partition_point, binary_search, first / last, an indexed value or a count decide nothing about "
+               "all values and are named in the alarm.  Phase 2, the placement given the decision - 'none fails': the only effect is "
+               "attrs.insert(type, S mapped element by element to the decoded text); the branch of a fallible conversion in which an "
+               "element of S fails the test the decision says no element fails is infeasible, so filter_map(.ok()) loses nothing there and "
+               "only there; 'some fails': the only effect is S itself, up to a permutation (sort*, reverse: multiset preserved), appended to "
+               "bin_attrs[type], nothing in attrs.  Between decision and placement S is only observed, permuted or handed on whole, and no "
+               "search runs on a named iterator (it would be left advanced).  Not decided: 'no value lost or "
                "altered' as a statement about contents; duplicate attribute types in one entry (a second insert replaces the first).")
-TRUSTED = ['std iterator adapters (map, filter_map, collect) preserve order', 'HashMap entry API']
+TRUSTED = ['std iterator adapters (map, filter_map, collect) preserve order', 'HashMap entry API',
+           'Iterator::{any, all, position, find} apply their predicate to the elements in order until the answer is certain; slice sort* / reverse permute']
 UNDECIDED = ['content equality of values', 'duplicate attribute types within one entry']
 ASSUMPTIONS = ['a generic element stands for every element of a `for` / iterator chain (the loop body is the same for all)']
 
@@ -53,6 +64,201 @@ def emptiness(pc, X):
             if is_len(r) and l == ('lit', 0) and a[1] in ('Eq', 'Lt', 'Ge'):
                 return t if a[1] in ('Eq', 'Ge') else (not t)
     return None
+
+# ---- the two-phase form of the classification ---------------------------------------------------------------------------------
+# searches that apply their predicate to the elements of the sequence one after the other until the answer is certain: their answer
+# is a statement about *all* elements (absx records them as atoms (kind, sequence, generic element, when the predicate holds))
+SEARCH_ALL = ('any', 'position', 'all')
+# `&self` methods of a vector / slice: they cannot change what it holds.  (Whether their answer says anything about all the
+# elements is another matter: none of these does - partition_point and binary_search probe O(log n) positions and are only
+# meaningful on a partitioned / sorted slice, first / last / get look at one element.)
+OBSERVE = ('len', 'is_empty', 'first', 'last', 'get', 'contains', 'partition_point', 'binary_search', 'binary_search_by', 'binary_search_by_key',
+           'starts_with', 'ends_with', 'is_sorted', 'is_sorted_by', 'is_sorted_by_key')
+# `&mut [T]` methods that only move elements around: the multiset of elements is what it was, for every input
+PERMUTE = ('sort', 'sort_by', 'sort_by_key', 'sort_by_cached_key', 'sort_unstable', 'sort_unstable_by', 'sort_unstable_by_key', 'reverse', 'rotate_left',
+           'rotate_right', 'swap')
+
+def whole_seqs(t, ok):
+    """the value sequences (iterator chains `ok` accepts) that t mentions as a whole - not through one generic element of them"""
+    out = []
+    def rec(x):
+        if not isinstance(x, tuple) or not x:
+            return
+        if isinstance(x[0], str):
+            if x[0] == 'elem':
+                return
+            if x[0] == 'many' and ok(x):
+                out.append(x)
+                return
+        for y in x:
+            rec(y)
+    rec(t)
+    return out
+
+def collected_results(a, is_utf8_test):
+    """a is the atom `C is Ok` for C = the UTF-8 tests of the elements of a sequence, collected into one Result: that sequence, or None.
+    (FromIterator for Result: the collection is Ok exactly when every item is Ok, and its payload holds the items' payloads in order.)"""
+    if a[0] == 'is' and a[2] == 'Ok' and a[1][0] == 'many':
+        src, el, item = a[1][1:4]
+        if el[0] == 'elem' and el[1] == src and is_utf8_test(('is', item, 'Ok')) and item[2][0] == el:
+            return src
+    return None
+
+def whole_value_sets(paths, outer, ok, is_utf8_test):
+    """the value sequences the conditions of the paths that complete an attribute talk about as a whole"""
+    found = []
+    for o in paths:
+        if o.target == outer:
+            for a, _t in o.st.pc:
+                src = collected_results(a, is_utf8_test)
+                for x in ([src] if src is not None and ok(src) else whole_seqs(a, ok)):
+                    if x not in found:
+                        found.append(x)
+    return found
+
+def two_phase(ctx, B, paths, outer, S, amap, bmap, is_utf8_test, map_events, is_type, keyed, lossy_source):
+    """V2 for the form `collect the values; ask whether one of them fails the UTF-8 test; place all of them accordingly`.
+    Phase 1, the decision: the path that completes an attribute must know whether *some value of S fails the UTF-8 test* from a
+    search that visits every element of S (any / all / position / find over S itself, with the UTF-8 test of the generic element
+    as the predicate).  Phase 2, the placement: knowing `none fails`, the only effect is attrs.insert(type, S converted element
+    by element by the UTF-8 decoding - which cannot fail then, so a conversion that would drop a failing element drops
+    nothing); knowing `some fails`, the only effect is that S itself, up to a permutation, is appended to bin_attrs[type]."""
+    root = loc(B.root)
+    def is_elem(e):
+        return e[0] == 'elem' and e[1] == S
+    def test_of(a):
+        """the element of S the atom a tests for UTF-8, or None"""
+        if is_utf8_test(a) and is_elem(a[1][2][0]):
+            return a[1][2][0]
+        return None
+    def over_S(x):
+        while x[0] == 'many':
+            if x == S:
+                return True
+            x = x[1]
+        return x == S
+    def decision(pc):
+        """what the path knows about `some value of S fails the UTF-8 test`, from searches over all of S: a set of 'some' / 'none'"""
+        res = set()
+        for a, t in pc:
+            if a[0] in SEARCH_ALL and a[1] == S and is_elem(a[2]) and len(a[3]) == 1 and len(a[3][0]) == 1 and test_of(a[3][0][0][0]) == a[2]:
+                holds_when_valid = a[3][0][0][1]
+                if a[0] in ('any', 'position') and not holds_when_valid:
+                    # any(fails) / position(fails) / find(fails) is true / Some exactly when some element fails
+                    res.add('some' if t else 'none')
+                elif a[0] == 'all' and holds_when_valid:
+                    # all(valid) is true exactly when no element fails (also for no elements at all)
+                    res.add('none' if t else 'some')
+            elif collected_results(a, is_utf8_test) == S:
+                res.add('none' if t else 'some')
+        return res
+    def governed_by(pc):
+        """the primitives, other than the searches above, through which the path condition looks at S as a whole"""
+        names = []
+        def add(n):
+            if n not in names:
+                names.append(n)
+        for a, _t in pc:
+            if a[0] in SEARCH_ALL:
+                if a[1] == S:
+                    add('`%s` over the value set with a predicate other than "%s"' % (a[0], 'is valid UTF-8' if a[0] == 'all' else 'is not valid UTF-8'))
+                elif any(over_S(x) for x in whole_seqs(a[1], lambda y: True)):
+                    add('`%s` over a part of the value set (%s)' % (a[0], ', '.join('`%s`' % c for c in calls_in(a[1]) if c in LOSSY) or 'an adaptor'))
+                continue
+            for c in absx.leaves(a, lambda x: x[0] == 'call' and any(isinstance(y, tuple) and y and over_S(y) for y in x[2])):
+                if short(c) != 'len':
+                    add('`%s`' % short(c))
+            if absx.leaves(a, lambda x: x[0] == 'index' and over_S(x[1])):
+                add('a test of one indexed value')
+        if not names and any(over_S(x) for a, _t in pc for x in whole_seqs(a, lambda y: True)):
+            add('a test of the number of values')
+        return names
+
+    # the term domain does not tell a collection from an iterator over it (iter / into_iter / collect are transparent there).  That is
+    # harmless as long as every search starts from the collection afresh; a search on a *named* iterator leaves it advanced past the
+    # first hit (any / all / position / find stop there), and what is read from it afterwards is not the value set any more
+    for n, _c in walk(B.root):
+        cal = callee_of(n) or '' if n.get('k') in ('MethodCall', 'Call') else ''
+        if ('iterator::Iterator::' in cal or 'core::iter::traits::iterator::Iterator>::' in cal) and cal.rsplit('::', 1)[-1] in ('any', 'all', 'position', 'find', 'find_map', 'rposition', 'try_fold', 'try_for_each', 'last', 'count'):     # (next / nth are cursor reads with ordinals in absx)
+            recv = n.get('recv') if n['k'] == 'MethodCall' else (n.get('args') or [None])[0]
+            r = hirq.peel_refs(recv) if recv is not None else None
+            if r is not None and r.get('k') == 'Path' and r.get('res') == 'local' and not hirq.strip_refs(r.get('ty') or '').startswith(('alloc::vec::Vec<', '[')):
+                ctx.fail('V2.value-set-only-permuted', '%s on a named iterator' % cal.rsplit('::', 1)[-1], loc(n),
+                         '`%s` advances the iterator `%s` it is called on; what is taken from that iterator afterwards is not the whole value set; not decidable here' % (
+                             cal.rsplit('::', 1)[-1], r.get('name') or '?'))
+
+    # every value of the attribute is in S: between the decoded value set and S there are only total element-wise conversions
+    lossy = lossy_source(S, ('elem', S, 0))
+    ctx.add('V2.every-value-is-classified', 'value set', root, lossy is None,
+            'a value of the attribute can be dropped before it is classified as text or binary: %s' % lossy)
+
+    seen, pruned = set(), 0
+    for o in paths:
+        if o.target != outer:
+            ctx.fail('V2.loop-structure', 'two-phase form', root, 'a path of the attribute loop ends inside another loop although nothing is carried from value to value; not decidable here')
+            continue
+        D = decision(o.st.pc)
+        elem_tests = [(test_of(a), t) for a, t in o.st.pc if test_of(a) is not None]
+        # infeasible paths: two searches over all of S that contradict each other; an element of S failing the very test that,
+        # by the decision, no element of S fails
+        if len(D) == 2 or (D == {'none'} and any(not t for _e, t in elem_tests)):
+            pruned += 1
+            continue
+        A, Bm = map_events(o)
+        # S holds the same values from the decision to the placement: apart from observers and permutations it is only handed on, whole
+        for e in o.st.ev:
+            if e[0] != 'call':
+                continue
+            for i, a in enumerate(e[2]):
+                if not (isinstance(a, tuple) and a and over_S(a)):
+                    continue
+                n = short(e)
+                # (an Iterator method consumes an iterator over S - by shared reference, or by value and then S is gone and only the
+                # method's result, a different term, can be placed; S itself is not changed by it)
+                okc = (i == 0 and (n in OBSERVE or 'iterator::Iterator::' in e[1] or 'core::iter::traits::iterator::Iterator>::' in e[1])) or (i == 0 and n in PERMUTE and a == S) \
+                    or (i == 1 and n in ('extend', 'append')) or (i == 2 and n == 'insert')
+                ctx.add('V2.value-set-only-permuted', n, loc(e[3]) if isinstance(e[3], dict) else root, okc,
+                        'the collected values are handed to `%s`: it may lose, duplicate or alter what they are between the decision and the placement; not decidable here' % n)
+        if not A and not [e for e in Bm if short(e) in MUTATORS]:
+            ctx.fail('V2.attribute-stored', 'generic attribute', root, 'on some path an attribute is stored in neither map')
+            continue
+        if not D:
+            by = governed_by(o.st.pc)
+            ctx.fail('V2.decision-inspects-every-value', ', '.join(by).replace('`', '') or 'no test of the value set', root,
+                     'whether every value of the attribute is valid UTF-8 is decided by %s: that does not apply the UTF-8 test to every value (only any / all / position / find over '
+                     'the whole value set with that test as the predicate do), so an attribute with a value it does not look at is placed by guesswork - attrs %s, bin_attrs %s' % (
+                         ' and '.join(by) or 'nothing that looks at the values', [short(e) for e in A], [short(e) for e in Bm if short(e) in MUTATORS]))
+            continue
+        some = D == {'some'}
+        seen.add(some)
+        sit = 'some value is not UTF-8' if some else 'every value is UTF-8'
+        if not some:
+            ins = [e for e in A if short(e) == 'insert']
+            ok = len(ins) == 1 and len(A) == 1 and not Bm and len(ins[0][2]) == 3 and ins[0][2][0] == amap and is_type(ins[0][2][1])
+            if ok:
+                tv = ins[0][2][2]
+                # the text collection: S mapped element by element to the decoded text of the element (the payload of the successful
+                # UTF-8 test of that element); one item per element, in order
+                # (or the payload of the Results of those tests collected into one Result, known to be Ok)
+                if tv[0] == 'variant' and tv[2:] == ('Ok', 0) and collected_results(('is', tv[1], 'Ok'), is_utf8_test) == S:
+                    tv = ('many', S, tv[1][2], ('variant', tv[1][3], 'Ok', 0))
+                ok = tv[0] == 'many' and tv[1] == S and is_elem(tv[2]) and tv[3][0] == 'variant' and tv[3][2:] == ('Ok', 0) \
+                    and test_of(('is', tv[3][1], 'Ok')) == tv[2]
+            ctx.add('V2.all-text-attribute-goes-to-attrs', sit, root, ok,
+                    'the vector of all the values, decoded, must be inserted into `attrs` under the attribute type, and nothing into bin_attrs: attrs %s, bin_attrs %s' % (
+                        [short(e) for e in A], [short(e) for e in Bm]))
+        else:
+            muts = [e for e in Bm if short(e) in MUTATORS]
+            ok = not A and len(muts) == 1 and short(muts[0]) in ('extend', 'append') and len(muts[0][2]) == 2 and keyed(muts[0][2][0])
+            if ok:
+                bv = muts[0][2][1]
+                ok = bv == S or (bv[0] == 'many' and bv[1] == S and bv[3] == bv[2])
+            ctx.add('V2.mixed-attribute-moves-text-to-bin_attrs', sit, root, ok,
+                    'once any value of the attribute is not UTF-8, all its values (as bytes, each once) must be appended to bin_attrs[type] and the attribute must not appear in '
+                    '`attrs`: attrs %s, bin_attrs %s' % ([short(e) for e in A], [short(e) for e in Bm]))
+    ctx.note('two-phase form: %d generic paths, %d infeasible under the decision they took' % (len(paths), pruned))
+    for need in (False, True):
+        ctx.add('V2.coverage', 'attribute completed, some value non-UTF-8=%s' % need, root, need in seen, 'no path for this situation')
 
 def run(ctx):
     f = ctx.facts
@@ -185,6 +391,33 @@ def run(ctx):
         """the place t inside bin_attrs is the entry of the attribute's type"""
         return any(x[1].rsplit('::', 1)[-1] in ('entry', 'get_mut') and len(x[2]) >= 2 and x[2][0] == bmap and is_type(x[2][1]) for x in absx.leaves(t, lambda x: x[0] == 'call'))
 
+    def lossy_source(lvl, v):
+        """why a value of the attribute may never reach the sequence lvl (whose element, or its primitive content, is v): between the
+        attribute's decoded value set and lvl there may only be total, element-wise conversions; None when that is so"""
+        lossy, depth_l = None, 0
+        while lvl[0] == 'many' and depth_l < 8:
+            depth_l += 1
+            if lvl[3] == lvl[2] or lvl[3] == ('skip',) or not absx.leaves(lvl[3], lambda x, e=lvl[2]: x == e):
+                lossy = 'an adaptor over the value set keeps only some of its elements (filter / filter_map)'
+            lvl = lvl[1]
+        bad_calls = [c for c in calls_in(lvl) if c in LOSSY]
+        if bad_calls:
+            lossy = 'the value set goes through %s before it is classified' % bad_calls[0]
+        if lossy is None and not values_src_ok(v):
+            lossy = 'the tested bytes are not the primitive content of an element of child 1 of the attribute'
+        return lossy
+
+    # ---- the two-phase form: nothing is carried from one value to the next; the values are collected and the collection is asked,
+    # as a whole, whether one of its values fails the UTF-8 test
+    if flagb is None and not vecs and inner is None:
+        sets = whole_value_sets(paths, outer, values_src_ok, is_utf8_test)
+        if len(sets) > 1:
+            ctx.fail('V2.loop-structure', 'value set', loc(B.root), 'the paths that complete an attribute consult %d different collections of its values; not decidable here' % len(sets))
+            return
+        if sets:
+            two_phase(ctx, B, paths, outer, sets[0], amap, bmap, is_utf8_test, map_events, is_type, keyed, lossy_source)
+            return
+
     # ---- pass 1, the steps: every path that classifies the generic value v
     info = {}
     text_into, bin_into = set(), set()       # where a text / binary value goes: a local vector (its binding), 'chain' (what the iterator chain yields), 'direct' (bin_attrs[type])
@@ -211,19 +444,7 @@ def run(ctx):
         d['test'], d['is_text'] = test, is_text
         # every value of the set reaches the classification: between the attribute's decoded value set and the UTF-8 test there are
         # only total, element-wise conversions - no adaptor that can drop, skip or cut elements
-        el = peel_value(v)
-        lvl, lossy = el[1], None
-        depth_l = 0
-        while lvl[0] == 'many' and depth_l < 8:
-            depth_l += 1
-            if lvl[3] == lvl[2] or lvl[3] == ('skip',) or not absx.leaves(lvl[3], lambda x, e=lvl[2]: x == e):
-                lossy = 'an adaptor over the value set keeps only some of its elements (filter / filter_map)'
-            lvl = lvl[1]
-        bad_calls = [c for c in calls_in(lvl) if c in LOSSY]
-        if bad_calls:
-            lossy = 'the value set goes through %s before it is classified' % bad_calls[0]
-        if lossy is None and not values_src_ok(v):
-            lossy = 'the tested bytes are not the primitive content of an element of child 1 of the attribute'
+        lossy = lossy_source(peel_value(v)[1], v)
         ctx.add('V2.every-value-is-classified', 'value set', loc(B.root), lossy is None,
                 'a value of the attribute can be dropped before it is classified as text or binary: %s' % lossy)
         decoded = ('variant', test[1], test[2], 0)
